@@ -1651,6 +1651,11 @@ class Parameter(_ParameterBase):
         update_ref = None
         if obj is not None and self.allow_refs and obj._param__private.initialized:
             syncing = name in obj._param__private.syncing
+            if syncing:
+                # the mark is for this very assignment (made by a sync or by
+                # trigger): what the watchers it reaches assign to this
+                # parameter meanwhile are assignments of their own
+                obj._param__private.syncing = obj._param__private.syncing - {name}
             ref, deps, val, is_async = obj.param._resolve_ref(self, val)
             refs = obj._param__private.refs
 
